@@ -225,3 +225,22 @@ S("C12", "name property reads a fixed entry", "R3", (AD, "            decoder_na
 S("C12", "handler classes differ between the two methods", "R5", (AD, "                self.__previous_success = index\n                return decoded\n            except (construct.ConstructError, ValueError):\n                pass\n\n        return None\n\n    def decode_message(", "                self.__previous_success = index\n                return decoded\n            except construct.ConstructError:\n                pass\n\n        return None\n\n    def decode_message("))
 N("C12", "start index via `or 0`", (AD, "        previous_success_index = (\n            self.__previous_success if self.__previous_success else 0\n        )\n\n        for i in range(len(AutoDecoder.payload_decoder_functions)):\n            index = (i + previous_success_index) % len(\n                AutoDecoder.payload_decoder_functions\n            )\n            _, decoder",
                                      "        previous_success_index = self.__previous_success or 0\n\n        for i in range(len(AutoDecoder.payload_decoder_functions)):\n            index = (previous_success_index + i) % len(\n                AutoDecoder.payload_decoder_functions\n            )\n            _, decoder"))
+
+# ------------------------------------------------------------------------------------------------ C04
+S("C04", "pinned defect: checksum truthiness", "R3", (D, "        if expected_checksum is not None:\n            if self._calculated_crc != expected_checksum:", "        if expected_checksum:\n            if self._calculated_crc != expected_checksum:"))
+S("C04", "CRC window end+1 -> end", "R2", (D, "buf = self._readout[0 : self._end_pos + 1]", "buf = self._readout[0 : self._end_pos]"))
+S("C04", "CRC window starts after the slash", "R2", (D, "buf = self._readout[0 : self._end_pos + 1]", "buf = self._readout[1 : self._end_pos + 1]"))
+S("C04", "polynomial 0xA001 -> 0xA003", "R1", (D, "crc ^= 0xA001  # CRC16 polynomial x16 + x15 + x2 +1", "crc ^= 0xA003"))
+S("C04", "CRC init 0xFFFF", "R1", (D, "        crc = 0x0000\n", "        crc = 0xFFFF\n"))
+S("C04", "comparison != -> <", "R3", (D, "if self._calculated_crc != expected_checksum:", "if self._calculated_crc < expected_checksum:"))
+S("C04", "ident failure ignored", "R5", (D, "        except ValueError:\n            _LOGGER.debug(\"Invalid ident line.\")\n            return False", "        except ValueError:\n            _LOGGER.debug(\"Invalid ident line.\")"))
+S("C04", "ident pattern loses its end anchor", "R5", (D, r"(?P<ID>[ -~]{1,16})?(\r\n)?$", r"(?P<ID>[ -~]{1,16})?"))
+S("C04", "ident pattern requires a lower-case third letter", "R5", (D, "[A-Z][A-Z][a-zA-Z])", "[A-Z][A-Z][a-z])"))
+S("C04", "checksum parsed as decimal", "R4", (D, "return int(end[1:].strip(), base=16)", "return int(end[1:].strip())"))
+S("C04", "checksum absent when shorter than 5 characters", "R4", (D, "        if len(end) > 1:\n            return int(end[1:].strip(), base=16)", "        if len(end) > 4:\n            return int(end[1:].strip(), base=16)"))
+S("C04", "payload includes the identification line", "R6", (D, "return bytes(self._readout[self._data_pos : self._end_pos])", "return bytes(self._readout[: self._end_pos])"))
+S("C04", "ASCII data characters rejected", "R3", (D, "if char > 0x80 or char == b\"!\":", "if char > 0x60 or char == b\"!\":"))
+S("C04", "checksum compared as unpadded text", "R3", (D, "            if self._calculated_crc != expected_checksum:", "            if f\"{self._calculated_crc:X}\" != self.end_line[1:].strip().upper():"))
+N("C04", "presence test inverted branches", (D, "        if expected_checksum is not None:\n            if self._calculated_crc != expected_checksum:", "        if expected_checksum is None:\n            pass\n        else:\n            if expected_checksum != self._calculated_crc:"))
+N("C04", "CRC conditional xor as expression", (D, "                if crc & 0x01:\n                    crc >>= 1\n                    crc ^= 0xA001  # CRC16 polynomial x16 + x15 + x2 +1\n                else:\n                    crc >>= 1", "                crc = (crc >> 1) ^ 0xA001 if crc & 1 else crc >> 1"))
+N("C04", "digit class written [0-9]", (D, r"(?P<BAUDID>\d)", r"(?P<BAUDID>[0-9])"))
